@@ -784,9 +784,7 @@ pub fn run(args: &Args) -> i32 {
             eprintln!("{msg}");
         }
     }));
-    let mut ring = Ring::new().expect("cannot create an io_uring ring");
     let root = Rng::new(args.seed);
-    let mut cases = Vec::with_capacity(n + 16);
     // Regression corpus, runs first: the bounds whose `+ 1` overflows `usize` (H23: before the
     // repair a build without overflow checks resolved them to valid ranges; every build must
     // now reject them like `Vec::drain`), then the boundary forms on small buffers.
@@ -801,14 +799,14 @@ pub fn run(args: &Args) -> i32 {
         (4, 4, 2, vec![Op::Remove(RForm::R(3, 2)), Op::Remove(RForm::R(0, 3)), Op::Remove(RForm::R(2, 2)), Op::Remove(RForm::From(3))]),
         (8, 1, 1, vec![Op::Remove(RForm::RI(0, 0)), Op::Fill(vec![5, 6], true), Op::Fill(vec![5], true), Op::Spare]),
     ];
-    let mut work: Vec<(u64, Option<(usize, usize, usize, Vec<Op>)>)> = Vec::new();
-    for (i, c) in corpus.into_iter().enumerate() {
-        work.push((1_000_000 + i as u64, Some(c)));
-    }
-    for i in 0..n {
-        work.push((i as u64, None));
-    }
-    for (i, forced) in work {
+    let n_corpus = corpus.len();
+    // Every case runs in a forked worker (a crash inside the code under test costs one case);
+    // each worker creates its own ring on first use.
+    let ring_cell: std::cell::RefCell<Option<Ring>> = std::cell::RefCell::new(None);
+    let cases = out::run_forked(&args.out, n_corpus + n, 12, &|k| {
+        let mut guard = ring_cell.borrow_mut();
+        let ring = guard.get_or_insert_with(|| Ring::new().expect("cannot create an io_uring ring"));
+        let (i, forced) = if k < n_corpus { (1_000_000 + k as u64, Some(corpus[k].clone())) } else { ((k - n_corpus) as u64, None) };
         let mut r = root.fork(i);
         let is_corpus = forced.is_some();
         let res = panic::catch_unwind(AssertUnwindSafe(|| {
@@ -820,35 +818,35 @@ pub fn run(args: &Args) -> i32 {
                     }
                     _ => false,
                 }));
-                let mut case = owned_case(&mut ring, &mut r, forced);
+                let mut case = owned_case(ring, &mut r, forced);
                 case.tags.push(if h23 { "corpus:H23".into() } else { "corpus".into() });
                 case
             } else if r.chance(1, 12) {
-                unowned_case(&mut ring, &mut r)
+                unowned_case(ring, &mut r)
             } else {
-                owned_case(&mut ring, &mut r, None)
+                owned_case(ring, &mut r, None)
             }
         }));
         match res {
-            Ok(case) => cases.push(case),
+            Ok(case) => case,
             Err(_) => {
-                // The driver itself could not carry on (the library reported something the
-                // driver cannot work with): that is a failing input; stop here, the ring may
-                // have an operation in flight.
+                // The driver itself could not carry on (the library reported something the driver
+                // cannot work with): that is a failing input. The ring may have an operation in
+                // flight: use a fresh one for the following cases.
+                *guard = None;
                 let msg = LAST_PANIC.lock().unwrap().clone().unwrap_or_default();
-                cases.push(Case {
-                    coq: "{| c_dbg := true; c_cap := 1; c_mem := []; c_fill := None; c_ops := []; c_refill := 0 |}%N".into(),
+                Case {
+                    coq: String::new(),
                     obs: vec![-1],
                     json: format!("{{\"aborted_case_stream\":{i},\"seed\":{}}}", args.seed),
                     oracle: Some(format!("driver aborted in case stream {i}: {msg}")),
                     known: None,
                     tags: vec!["aborted".into()],
                     nontrivial: false,
-                });
-                break;
+                }
             }
         }
-    }
+    });
     let spec = Spec {
         prop: "C15",
         imports: &["Model.ReadBufEdit"],
